@@ -55,6 +55,8 @@ USER_FUNCS = {
 
 import os as _os
 
+from ..core.util import weighted as weighted_choice  # noqa (used by qgen2)
+
 # probability of the SelectMany-inside-an-expression shapes per expression slot (a defect lived there - fixed in /repo;
 # VERIF_QGEN_FLAT raises it, which is how the repair was validated)
 P_FLAT = float(_os.environ.get("VERIF_QGEN_FLAT", "0.10"))
@@ -159,6 +161,14 @@ class QGen:
             a, _ = self.obj_num(o, etype, depth - 1, want="double")
             self.shape.append("ifexp")
             return f"({a} if {c} else {r.choice(FLOATS)})", "double"
+        if r.random() < 0.2:
+            # difference of two filtered counts over the object's own vector
+            m = r.choice(["cvals", "ivals"])
+            self.declare(etype, m)
+            c1, c2 = self.var("c"), self.var("c")
+            self.shape.append("oagg_arith")
+            return (f"({o}.{m}().Where(lambda {c1}: {c1} > 0).Count() {r.choice(['-', '+'])} "
+                    f"{o}.{m}().Where(lambda {c2}: {c2} > 1).Count())"), "int"
         # aggregates over a nested numeric vector of the object
         m = r.choice(["cvals", "ivals"])
         self.declare(etype, m)
@@ -257,6 +267,18 @@ class QGen:
             self.occ.append({"coll": "EventInfo", "bank": "EventInfo", "type": "xAOD::EventInfo", "uncond": self.uncond})
             self.shape.append("singleton")
             return f'{evar}.EventInfo("EventInfo").{r.choice(["runNumber", "eventNumber"])}()', "double"
+        if depth > 0 and r.random() < 0.10:
+            # arithmetic between two aggregates, the second one behind its own loop / filter
+            s1, et1 = self.seq_of_obj(evar, 0, allow_where=r.random() < 0.5)
+            s2, et2 = self.seq_of_obj(evar, 0, allow_where=False)
+            w = self.var("w")
+            cut = r.choice(FLOATS)
+            self.shape.append("agg_arith")
+            rhs = f"{s2}.Where(lambda {w}: {w}.{r.choice(DOUBLE_METHODS)}() > {cut}).Count()"
+            if r.random() < 0.3:
+                v = self.var("s")
+                rhs = f"{s2}.Where(lambda {w}: {w}.{r.choice(DOUBLE_METHODS)}() > {cut}).Select(lambda {v}: {v}.{r.choice(DOUBLE_METHODS)}()).Sum()"
+            return f"({s1}.Count() {r.choice(['+', '-', '*'])} {rhs})", "double"
         if depth > 0 and r.random() < 0.10:
             # the idiomatic guarded First: the condition protects the First() of the same sequence
             s_, et = self.seq_of_obj(evar, 0, allow_where=r.random() < 0.3)
